@@ -109,6 +109,7 @@ deriving Repr
 structure DS where
   isSwitch : Bool := false
   isReduce : Bool := false
+  fwd : Bool := false               -- switchb / switchl: the switch output forwards to the branch terminal
   n : Nat := 1
   cleanup : Bool := true
   plan : Plan := {}
@@ -246,7 +247,7 @@ def swInputs (cycles : List (List Op)) : List SwIn :=
 def runHistory (d : DS) (recorder : Bool) : List String :=
   let nc := d.cycles.length
   if d.cfgBad then List.replicate (nc + 1) "err:harness" else
-  let cfg : Cfg := { n := d.n, cleanup := d.cleanup, recorder := recorder }
+  let cfg : Cfg := { n := d.n, cleanup := d.cleanup, recorder := recorder, fwd := d.fwd }
   let h := hooksOf d.plan
   let (tRet, tFin, err, cycErr) :=
     if d.isSwitch then
@@ -295,8 +296,9 @@ def step (recorder : Bool) (d : DS) (ws : List String) : DS × List String :=
     ({}, out ++ [s!"case {n}"])
   | ["cfg", kind, n, c] =>
     let (d1, out) := flush d recorder false
-    let ok := (kind == "map" || kind == "switch" || kind == "reduce") && (n == "1" || n == "2" || n == "3") && (c == "0" || c == "1")
-    if ok then ({ d1 with isSwitch := kind == "switch", isReduce := kind == "reduce", n := n.toNat!, cleanup := c == "1", cfgBad := false }, out ++ ["ok"])
+    let sw := kind == "switch" || kind == "switchb" || kind == "switchl"
+    let ok := (kind == "map" || sw || kind == "reduce") && (n == "1" || n == "2" || n == "3") && (c == "0" || c == "1")
+    if ok then ({ d1 with isSwitch := sw, fwd := sw && kind != "switch", isReduce := kind == "reduce", n := n.toNat!, cleanup := c == "1", cfgBad := false }, out ++ ["ok"])
     else ({ d1 with cfgBad := true }, out ++ ["bad-op"])
   | ["fs", k] =>
     let (d1, out) := flush d recorder false
